@@ -10,6 +10,7 @@ import EEM.Model.Splits
 import EEM.Gen.SplitCandidates
 import EEM.Model.Window
 import EEM.Model.BillingAgg
+import EEM.Model.PredictFrame
 
 open EEM EEM.Proto EEM.Model
 
@@ -295,6 +296,39 @@ def opParseAgg (args : List String) : String :=
     | none => "bad-op"
   | _ => "bad-op"
 
+open EEM.Model.PredictFrame in
+def parseCell (s : String) : Option (Cell Float) :=
+  if s == "n" then some .nan else if s == "i" then some .inf else (parseFloat s).map .fin
+
+open EEM.Model.PredictFrame in
+def showCell : Cell Float → String
+  | .nan => "n" | .inf => "i" | .fin v => showFloat v
+
+open EEM.Model.PredictFrame in
+/-- `pframe <noOp|nonFinite|nanOnly> <hasObs 0/1> <combo> <7 weekday labels> <t season dow T obs>...`;
+prediction value of segment `s` is rendered as the segment name -/
+def opPFrame (args : List String) : String :=
+  match args with
+  | mode :: ho :: combo :: wmap :: rest =>
+    let rec rows : List String → Option (List (InRow Float))
+      | [] => some []
+      | t :: se :: dw :: tc :: oc :: more => do
+        let t ← parseInt t; let dw ← parseNat dw; let tc ← parseCell tc; let oc ← parseCell oc
+        let r ← rows more
+        pure ({ t := t, season := se, dow := dw, temperature := tc, observed := oc } :: r)
+      | _ => none
+    let mode : Option MaskMode := match mode with
+      | "noOp" => some .noOp | "nonFinite" => some .nonFinite | "nanOnly" => some .nanOnly | _ => none
+    match mode, parseBool01 ho, Model.Splits.parseCombo combo, rows rest with
+    | some mode, some ho, some c, some rs =>
+      let wl := wmap.splitOn ","
+      let route := fun (r : InRow Float) => (Model.Splits.segmentsOf wl c r.season r.dow).map showComponent
+      let out := predictFrame mode ho route (fun s (_ : Float) => s) rs
+      "ok " ++ " ".intercalate (out.map fun o =>
+        s!"{o.t}:{showCell o.temperature}:{if ho then showCell o.observed else "x"}:{o.predicted.getD "-"}")
+    | _, _, _, _ => "bad-op"
+  | _ => "bad-op"
+
 def step (line : String) : String :=
   match words line with
   | "submodel" :: args => opPredictSubmodel args
@@ -316,6 +350,7 @@ def step (line : String) : String :=
   | "reporting" :: args => opReporting args
   | "agg" :: args => opAgg args
   | "parseagg" :: args => opParseAgg args
+  | "pframe" :: args => opPFrame args
   | _ => "bad-op"
 
 partial def loop (h : IO.FS.Stream) (out : IO.FS.Stream) : IO Unit := do
